@@ -183,9 +183,11 @@ def _roundtrip_objects(ctx, per, label, prefix):
                         # a character of a wide alphabet inserted (what a loosened validity pattern may newly admit);
                         # used only when the constructor accepts the text
                         j = rng.randint(0, len(s))
-                        ins = rng.choice(list(":_~+-.^") + ["0:", "1:", "0:", "00:"])
-                        if len(ins) > 1 and rng.random() < 0.7:
+                        ins = rng.choice(list(":_~+-.^") + ["0:", "1:", "0:", "00:"] + ["%2B", "%7E", "%41", "%", "v", "vv", "Vv", "V"])
+                        if ins.endswith(":") and len(ins) > 1 and rng.random() < 0.7:
                             j = 0           # an epoch in front (of a text that may already have one)
+                        if ins.lower().startswith("v"):
+                            j = 0           # one or two `v` in front: what `normalize` strips must be stripped for good
                         s = s[:j] + ins + s[j:]
                     v = rc.version_class(s)
                 except Exception:  # noqa: BLE001
